@@ -296,7 +296,7 @@ def rule_D3(ctx):
             raise AnalysisError(f'{c}.__eq__ does not resolve to one function')
         eq = eqs[0]
         tries = [n for n in own_walk(eq.node) if isinstance(n, ast.Try)]
-        conv = [n for n in own_walk(eq.node) if isinstance(n, ast.Call) and isinstance(n.func, ast.Attribute) and n.func.attr == '_create_from_bitstype']
+        conv = [n for n in own_walk(eq.node) if isinstance(n, ast.Call) and isinstance(n.func, ast.Attribute) and n.func.attr in m.promoters]
         ok = False
         for t in tries:
             inside = any(cv is x for cv in conv for b in t.body for x in ast.walk(b))
@@ -321,7 +321,8 @@ def rule_D3(ctx):
         for ne in nes:
             body = [s for s in ne.node.body if not (isinstance(s, ast.Expr) and isinstance(s.value, ast.Constant))]
             txt = ast.unparse(body[0]) if len(body) == 1 else ''
-            if txt not in ('return not self.__eq__(bs)', 'return not self == bs'):
+            pn = ne.params()[1] if len(ne.params()) > 1 else 'bs'
+            if txt not in (f'return not self.__eq__({pn})', f'return not self == {pn}'):
                 if '__eq__' in txt or '==' in txt:
                     raise AnalysisError(f'{ne.key}: negation form not recognised (needs a human)')
                 r.fail(ne.key, f'{c}.__ne__', '!= must be the negation of ==', loc=ne.loc())
